@@ -55,6 +55,15 @@ def tweak(world, rng):
                 e["loc"] = e["loc"] + b"/"
                 e["rec"] = e["rec"] + b"/"
                 e["dest"] = kind + "+slash"
+    if world["opts"].get("overwrite"):
+        # --overwrite: what comes back may be a directory, what is in the way a dangling link, a link or a file
+        for e in ents:
+            if e.get("dest") in ("link-dangling", "link-file", "file") and rng.random() < 0.5:
+                pay = e["tdir"] + b"/files/" + e["name"]
+                for q in [q for q in nodes if q == pay or q.startswith(pay + b"/")]:
+                    del nodes[q]
+                nodes[pay] = {"p": pay, "k": "d", "mode": 0o755, "mtime": 1000000310}
+                nodes[pay + b"/inside"] = {"p": pay + b"/inside", "k": "f", "data": b"dir payload", "mode": 0o644, "mtime": 1000000311}
     world["nodes"] = sorted(nodes.values(), key=lambda n: n["p"])
     world["opts"]["path"] = b"/"
     world["opts"].pop("trashDir", None)
